@@ -14,6 +14,9 @@ class SliceError(Exception):
 class Slice(NullCell):
 
     def __init__(self, bits: TvmBitarray, refs: typing.List[Cell], type_: int = -1):
+        if not isinstance(bits, TvmBitarray):
+            # a plain bitarray has no underflow check: over-reads would silently return short data
+            bits = TvmBitarray(1023, bits)
         self.bits = bits
         self.refs = refs
         self.type_ = type_
